@@ -86,7 +86,7 @@ TextOf(name, n) ==
 Alive(b) == b \in S.ids /\ S.bars[b].alive
 AliveBars == {b \in S.ids : S.bars[b].alive}
 NextId == Cardinality(S.ids) + 1
-NoStatic == Statics(S) = {} /\ \A b \in S.ids : S.bars[b].alive \/ ~S.bars[b].inmp     \* no member has been dropped so far
+NoStatic == Statics(S) = {} /\ ~S.ghosts /\ \A b \in S.ids : S.bars[b].alive \/ ~S.bars[b].inmp     \* no member has been dropped or unlinked so far
 
 TargetName == IF Tgt = "auto" THEN (IF Hz = 0 THEN "spy" ELSE "spy_hz") ELSE Tgt
 NewOp0(name, b, tpl, fin, tw, tf) ==
@@ -138,6 +138,14 @@ OpsNow ==
                        [] nm \in {"set_style", "restyle"} -> { ([tpl |-> t] @@ BarOp(nm, b, dt)) : t \in (IF nm = "restyle" THEN Tpls \ {"KM", "KC"} ELSE Tpls) }
                        [] nm = "set_tab_width" -> { ([n |-> n] @@ BarOp(nm, b, dt)) : n \in {0, 1, 4} }
                        [] nm = "mp_remove" -> IF S.bars[b].inmp THEN { BarOp(nm, b, dt) } ELSE {}
+                       [] nm = "set_target" ->
+                            (* RESTRICTION: a member is only unlinked (hidden target): a member given a terminal of its own would share it  *)
+                            (* with the MultiProgress, which nothing coordinates                                                           *)
+                            IF Multi THEN (IF S.bars[b].inmp THEN { ([target |-> "hidden"] @@ BarOp(nm, b, dt)) } ELSE {})
+                            (* RESTRICTION: a new terminal target starts painting at the cursor; where that is after an abandoned frame *)
+                            (* (at its right edge) is the caller's business, so a bar is shown again only while nothing was abandoned    *)
+                            ELSE { ([target |-> t] @@ BarOp(nm, b, dt)) : t \in {"hidden"} \cup (IF S.ghosts \/ S.bars[b].drawn THEN {} ELSE {"spy"}) }
+                       [] nm = "readd" -> IF Multi THEN { BarOp(nm, b, dt) } ELSE {}
                        [] OTHER -> {})
                     : nm \in BarOps } : <<b, dt>> \in AliveBars \X DTs } \cup
     (* fault injection (C18): once per history *)
@@ -188,7 +196,8 @@ Cfg == [w |-> W, h |-> H, base |-> Base] @@
 (* ll = last_line_count (rows).  One action per critical section:           *)
 (* Paint = MultiState::draw (reap head zombies, println clears the zombie   *)
 (* lines), Zombie = mark_zombie, Clear = MultiState::clear.                 *)
-RowsB(S1, b) == IF S1.bars[b].drawn THEN RowsOf(S1.bars[b].pend, W) ELSE 0
+RowsB(S1, b) == IF b # 0 /\ S1.bars[b].drawn THEN RowsOf(S1.bars[b].pend, W) ELSE 0
+Ghost(o, b) == [j \in 1..Len(o) |-> IF o[j].b = b THEN [b |-> 0, z |-> o[j].z] ELSE o[j]]
 RECURSIVE SumRows(_, _, _)
 SumRows(S1, o, j) == IF j > Len(o) THEN 0 ELSE RowsB(S1, o[j].b) + SumRows(S1, o, j + 1)
 RECURSIVE Heads(_)
@@ -212,7 +221,11 @@ IAdvance(i, o, S0, S1) ==
               [] o.op = "insert_from_back" -> [i EXCEPT !.ord = InsertAt(i.ord, SatSub(Len(i.ord), o.idx), nb)]
               [] o.op = "insert_before" -> [i EXCEPT !.ord = InsertAt(i.ord, IPos(i.ord, o.b2) - 1, nb)]
               [] o.op = "insert_after" -> [i EXCEPT !.ord = InsertAt(i.ord, IPos(i.ord, o.b2), nb)]
-              [] o.op = "mp_remove" -> [i EXCEPT !.ord = SelectSeq(i.ord, LAMBDA e : e.b # o.b)]
+              [] o.op = "mp_remove" -> IF inord THEN IPaint([i EXCEPT !.ord = SelectSeq(i.ord, LAMBDA e : e.b # o.b)], S1, FALSE) ELSE i     \* remove repaints at once
+              (* the unlinked slot stays in the ordering with nothing to draw (b = 0) *)
+              [] o.op = "set_target" -> IF inord THEN IPaint([i EXCEPT !.ord = Ghost(i.ord, o.b)], S1, FALSE) ELSE i
+              [] o.op = "readd" -> IF inord THEN [IPaint([i EXCEPT !.ord = Ghost(i.ord, o.b)], S1, FALSE) EXCEPT !.ord = Append(@, nb)]
+                                   ELSE [i EXCEPT !.ord = Append(i.ord, nb)]
               [] o.op = "mp_clear" -> [i EXCEPT !.zl = 0, !.ll = 0]
               [] o.op \in {"mp_println", "println"} -> IF o.op = "println" /\ ~inord THEN i ELSE IPaint(i, S1, TRUE)
               [] o.op \in {"mp_suspend", "suspend"} -> IPaint([i EXCEPT !.zl = 0, !.ll = 0], S1, FALSE)
